@@ -8,7 +8,7 @@ CONSTANTS
   MaxSteps = 4
   Modes = {"normal", "coro"}
   Typed = TRUE
-  Ops = {"ConstructEmpty", "ConstructH", "MoveConstruct", "AddHandle", "AddFill", "MergeShl", "MoveAssign", "Pop", "Clear", "Destroy", "CoAwait", "Pause", "Read"}
+  Ops = {"ConstructEmpty", "ConstructH", "MoveConstruct", "AddHandle", "AddFill", "MergeShl", "MoveAssign", "Pop", "Clear", "Destroy", "CoAwait", "Pause", "Read", "ParResume", "CreateSP"}
   Fixed = TRUE
   Targets = {}
 INVARIANTS TypeOK RepOK NoDoubleResume Conservation NoLeak
